@@ -1099,6 +1099,15 @@ func checkC11(c *Ctx) {
 		if hasFact(b, true, isClosedAtom) {
 			return true
 		}
+		for _, fct := range an.BranchFacts(b) {
+			cond, neg := an.Not(fct.Cond)
+			if c.isShutdownErrAtom(cond) {
+				_, trueMeansNil, _ := an.NilCheck(cond)
+				if (fct.True != neg) != trueMeansNil { // Err() != nil
+					return true
+				}
+			}
+		}
 		// select on shutdownCtx.Done(): block dominated by `index == 0` of a select whose state 0 receives from Done()
 		return hasFact(b, true, func(v ssa.Value) bool {
 			bo, ok := v.(*ssa.BinOp)
@@ -1156,6 +1165,41 @@ func checkC11(c *Ctx) {
 	R.Trivial("C11-nolock", "connection goroutines never take Server.mu", c.P.Pos(m.connFn.Pos()), sprintf("%d functions scanned", len(slice)))
 	R.NotDecided = append(R.NotDecided, "the time bound itself", "kernel / TLS stack behaviour after Close or deadline", "progress of user handlers")
 	R.Assumptions = append(R.Assumptions, "net.Conn.SetDeadline/Close unblock pending Read and Write calls (net package contract)")
+}
+
+// isShutdownErrAtom: `shutdownCtx.Err() != nil` / `== nil`.
+func (c *Ctx) isShutdownErrAtom(v ssa.Value) bool {
+	x, _, ok := an.NilCheck(v)
+	if !ok {
+		return false
+	}
+	call, ok := an.Strip(x).(*ssa.Call)
+	if !ok || !call.Common().IsInvoke() || call.Common().Method.Name() != "Err" {
+		return false
+	}
+	return c.isShutdownCtx(call.Common().Value)
+}
+
+// condIfOf returns the If instruction branching on cond (possibly negated).
+func condIfOf(cond ssa.Value) *ssa.If {
+	var out *ssa.If
+	var visit func(v ssa.Value)
+	visit = func(v ssa.Value) {
+		refs := v.Referrers()
+		if refs == nil {
+			return
+		}
+		for _, r := range *refs {
+			switch x := r.(type) {
+			case *ssa.If:
+				out = x
+			case *ssa.UnOp:
+				visit(x)
+			}
+		}
+	}
+	visit(cond)
+	return out
 }
 
 func (c *Ctx) isShutdownCtx(v ssa.Value) bool {
